@@ -769,14 +769,18 @@ impl Swift {
         let output_string = self.get_codable_contents();
         let output_path = Path::new(output_folder).join("Codable.swift");
 
+        // Compare against exactly what would be written (including the
+        // trailing newline) so an unchanged file keeps its mtime.
+        let mut output = Vec::new();
+        self.write_codable(&mut output, &output_string)?;
+
         if let Ok(buf) = fs::read(&output_path) {
-            if buf == output_string.as_bytes() {
+            if buf == output {
                 return Ok(());
             }
         }
 
-        let mut w = fs::File::create(output_path)?;
-        self.write_codable(&mut w, &output_string)
+        fs::write(output_path, output)
     }
 
     fn get_codable_contents(&self) -> String {
